@@ -8,6 +8,7 @@ pub mod c06;
 pub mod c07;
 pub mod req;
 pub mod c11;
+pub mod c12;
 pub mod c14;
 pub mod c15;
 pub mod c16;
@@ -38,6 +39,9 @@ pub fn run(ctx: &mut Ctx, suite: &str) {
         "c16" => c16::run(ctx),
         "c17" => c17::run(ctx),
         "c18" => c18::run(ctx),
+        "c12t" => c12::run_tokens(ctx),
+        "c12" => c12::run_limit(ctx),
+        "c13" => c12::run_shutdown(ctx),
         "c19" => c19::run(ctx),
         "c20" => c20::run(ctx),
         _ => {
@@ -66,6 +70,9 @@ pub fn replay(ctx: &mut Ctx, tag: &str, args: &[&str]) {
         "c16a" => c16::case_add(ctx, args[0], args[1]),
         "c17" => c17::case(ctx, args[0], args[1]),
         "c18" => c18::case(ctx, args[0]),
+        "c12t" => c12::case_tokens(ctx, args[0], args[1]),
+        "c12" => c12::case_limit(ctx, args[0], args[1], args[2]),
+        "c13" => c12::case_shutdown(ctx, args[0], args[1], args[2]),
         "c19s" => c19::case_set(ctx, args[0], args[1]),
         "c19w" => c19::case_writer(ctx, args[0], args[1], args[2], args[3], args[4]),
         "c20e" => c20::case_error(ctx, args[0]),
